@@ -43,7 +43,7 @@ func enumerateCrashPoints(ch core.Chooser, st *core.Stats, s *fsess, base *fault
 			}
 			st.Eval(1)
 			st.Count("crash_in_"+ctx, 1)
-			if ctx != "idle" {
+			if ctx != "idle" && !s.trivialHistory {
 				st.NontrivialSub(fp, p*64)
 			}
 		}
@@ -60,7 +60,9 @@ func enumerateCrashPoints(ch core.Chooser, st *core.Stats, s *fsess, base *fault
 				}
 				st.Eval(1)
 				st.Count("crash_torn_write", 1)
-				st.NontrivialSub(fp, p*64+ti+1)
+				if !s.trivialHistory {
+					st.NontrivialSub(fp, p*64+ti+1)
+				}
 			}
 		}
 		w.see(op)
